@@ -24,7 +24,7 @@ Decl(tname, tb) ==
   CASE tname = "chain" -> "class A { real id; A(real id) : id(id) {} } class B : A { B(real id) : A(id) {} } class C : B { C(real id) : B(id) {} } "
     [] tname = "fork" -> "class A { real id; A(real id) : id(id) {} } class B : A { B(real id) : A(id) {} } class C : A { C(real id) : A(id) {} } "
     [] tname = "multi" -> "class A { real id; A(real id) : id(id) {} } class B { real w = 7.0; } class C : A, B { C(real id) : A(id) {} } "
-Num(k) == CASE k = 0 -> "0.0" [] k = 1 -> "1.0" [] k = 2 -> "2.0" [] k = 3 -> "3.0"
+Num(k) == CASE k = 0 -> "0.0" [] k = 1 -> "1.0" [] k = 2 -> "2.0" [] k = 3 -> "3.0" [] k = 4 -> "4.0"
 IName(i) == CASE i = 1 -> "i1" [] i = 2 -> "i2" [] i = 3 -> "i3" [] i = 4 -> "i4"
 New(c, i, k) == IF c = "B" /\ FALSE THEN "" ELSE c \o " " \o IName(i) \o " = new " \o c \o "(" \o Num(k) \o "); "
 NewIn(tname, c, i, k) == IF tname = "multi" /\ c = "B" THEN "B " \o IName(i) \o " = new B(); " ELSE New(c, i, k)
@@ -129,6 +129,20 @@ DowncastCases ==
     allowed |-> SetToSeq({IName(j) : j \in {i \in {1, 2} : i = k /\ (k2 = 0 \/ k2 = i)}}),
     sat |-> IF k \in {1, 2} /\ (k2 = 0 \/ k2 = k) THEN 1 ELSE 0] : k \in 1..3, k2 \in 0..3, k4 \in {1, 2}}
 
+\* the same over three levels A > B > C: the parameter has the MIDDLE type, the variable the top type, instances of all three
+\* levels exist: the variable is pruned to the instances of B *and of its subtype C* (i1 : C, i2 : B, i3 : A, i4 : C); with or
+\* without a rule on the field, with or without a constraint that picks one instance; a fact instead of a goal as well (the rule of a predicate is applied to
+\* goals only: for a fact the body says nothing, the pruning to the parameter's type remains)
+Downcast3Cases ==
+  {[kind |-> "obj", fam |-> "downcast",
+    text |-> "class A { real id; A(real id) : id(id) {} } class B : A { B(real id) : A(id) {} } class C : B { C(real id) : B(id) {} } "
+             \o "C i1 = new C(1.0); B i2 = new B(2.0); A i3 = new A(3.0); C i4 = new C(4.0); predicate P(B p) { "
+             \o (IF k = 0 THEN "" ELSE "p.id == " \o Num(k) \o "; ") \o "} "
+             \o "A v; " \o (IF fact THEN "fact" ELSE "goal") \o " g = new P(p:v); " \o (IF k2 = 0 THEN "" ELSE "v.id == " \o Num(k2) \o "; "),
+    var |-> "v", dom0 |-> <<"i1", "i2", "i3", "i4">>,
+    allowed |-> SetToSeq({IName(j) : j \in {i \in {1, 2, 4} : (fact \/ k = 0 \/ i = k) /\ (k2 = 0 \/ k2 = i)}}),
+    sat |-> IF \E i \in {1, 2, 4} : (fact \/ k = 0 \/ i = k) /\ (k2 = 0 \/ k2 = i) THEN 1 ELSE 0] : k \in 0..4, k2 \in 0..4, fact \in BOOLEAN}
+
 \* an enum that includes an enum that includes an enum
 NestedEnumCases ==
   {[kind |-> "verdict", fam |-> "enum",
@@ -139,7 +153,7 @@ NestedEnumCases ==
     text |-> "enum L {" \o EnumVals("l", 2) \o "}; enum M {" \o EnumVals("m", 1) \o "} | L; enum T {" \o EnumVals("t", 1) \o "} | M; T x1; L y; x1 == y; ",
     var |-> "x1", dom0 |-> <<>>, allowed |-> <<>>, sat |-> 1]}
 
-Cases == {ObjCase(c) : c \in {x \in RawCases : WellTyped(x)}} \cup HolderCases \cup RangeCases \cup EnumCases \cup NestedEnumCases \cup DowncastCases
+Cases == {ObjCase(c) : c \in {x \in RawCases : WellTyped(x)}} \cup HolderCases \cup RangeCases \cup EnumCases \cup NestedEnumCases \cup DowncastCases \cup Downcast3Cases
 ASSUME ndJsonSerialize(Out, SetToSeq(Cases))
 ASSUME PrintT(<<"GENERATED", Cardinality(Cases)>>)
 
